@@ -595,7 +595,9 @@ def run_codec(c, classes):
             pm._msg_defs.clear()
             for i in hd.get("registry", []):
                 pm._msg_defs[classes[i].type_id] = classes[i]
-            hdr = MessageHeader()
+            from pyrtma.header import get_header_cls
+            hdr = get_header_cls(bool(hd.get("timecode")))()      # each shipped header class: plain / timecode
+            res["hdr_cls"] = type(hdr).__name__
             hexc = []
             for name, v in hd["fields"]:
                 try:
@@ -614,7 +616,7 @@ def run_codec(c, classes):
             try:
                 m2 = rt()
                 res["msg_rt"] = dict(code=0, hdr=bytes(m2.header).hex(), data=bytes(m2.data).hex(),
-                                     cls=type(m2.data).__name__)
+                                     cls=type(m2.data).__name__, hdr_cls=type(m2.header).__name__)
             except Exception as e:  # noqa
                 res["msg_rt"] = dict(code=exc_code(e), exc=type(e).__name__, msg=str(e)[:160])
             # the same JSON without its "data" member (what a web client may send for a signal)
@@ -627,7 +629,8 @@ def run_codec(c, classes):
                 res["msg_rt_nodata"] = dict(code=exc_code(e), exc=type(e).__name__)
             try:
                 cp = Message.copy(full)
-                r = dict(code=0, hdr=bytes(cp.header).hex(), data=bytes(cp.data).hex())
+                r = dict(code=0, hdr=bytes(cp.header).hex(), data=bytes(cp.data).hex(),
+                         hdr_cls=type(cp.header).__name__, data_cls=type(cp.data).__name__)
                 ctypes.memset(ctypes.addressof(cp.data), 0xA5, ctypes.sizeof(cp.data))
                 ctypes.memset(ctypes.addressof(cp.header), 0xA5, ctypes.sizeof(cp.header))
                 r["orig_after"] = bytes(full.header).hex() + "|" + bytes(full.data).hex()
